@@ -393,7 +393,7 @@ func parseGetValue(out string, syms [][2]string) map[string]string {
 		if len(pair.list) != 2 {
 			continue
 		}
-		term := pair.list[0].atom
+		term := renderSexpr(pair.list[0])
 		for _, s := range syms {
 			if s[1] == term {
 				res[s[0]] = renderSexpr(pair.list[1])
